@@ -166,6 +166,7 @@ package har
 //@   ensures[nothing-new-is-indexed] forall k string :: has(l.entries, k) ==> old(has(l.entries, k)) && l.entries[k] == old(l.entries[k])
 //@   ensures[ring-restarts-at-a-pending-member] l.tail != nil && l.tail.next != nil ==> l.tail.next.Response == nil && wasIn(l, l.tail.next)
 //@   ensures[newest-kept-entry-is-pending] l.tail != nil && l.tail != old(l.tail) ==> l.tail.Response == nil && wasIn(l, l.tail)
+//@   ensures[every-kept-entry-is-linked-to-a-kept-entry] l.tail != nil && l.tail.Response == nil && l.tail.next != nil ==> forall e *Entry :: wasIn(l, e) && e.Response == nil ==> e.next != nil && e.next.Response == nil
 //@   loop 0 invariant l.mu.held && l.tail == old(l.tail) && l.entries == old(l.entries) && (curr == nil ==> old(l.tail) == nil && len(es) == 0 && first == nil)
 //@   loop 0 invariant curr != nil ==> wasIn(l, curr) && prev != nil
 //@   loop 0 invariant curr == old(l.tail) ==> len(es) == 0 && first == nil && prev == old(l.tail) && (forall e *Entry :: e.next == old(e.next)) &&
@@ -185,6 +186,8 @@ package har
 //@   loop 0 invariant forall k string :: has(l.entries, k) ==> old(has(l.entries, k))
 //@   loop 0 invariant forall k string :: l.entries[k] == old(l.entries[k])
 //@   loop 0 invariant forall e *Entry :: wasIn(l, e) && e.Response == nil ==> has(l.entries, e.ID)
+//@   loop 0 invariant[visited-pending-are-not-newer-than-prev] curr != nil && curr != old(l.tail) ==> forall e *Entry :: wasIn(l, e) && e.Response == nil && e.arr <= curr.arr ==> first != nil && e.arr <= prev.arr
+//@   loop 0 invariant[kept-entries-linked-to-the-next-kept-entry] first != nil ==> forall e *Entry :: wasIn(l, e) && e.Response == nil && e.arr < prev.arr ==> e.next != nil && e.next.Response == nil && wasIn(l, e.next)
 //@   loop 0 invariant arr(es) == nil || !wasAllocated(es)
 //@   at call 0 of makeHAR after assert[exported-list-is-the-collected-list] result.Log.Entries == es
 
